@@ -232,4 +232,5 @@ def replay(case):
     if case.get("fresh"):
         a = shard((0, "REJECTED-FIRST"))
         return [x for x in a.violations if x["key"] == case.get("key", x["key"])] or a.violations
-    return check_case(case)[0]
+    with core.istate(case["seq"]):       # the same interpreter state as in the exploration
+        return check_case(case)[0]
